@@ -117,7 +117,10 @@ def build_network(cfg, placement, extras=None):
     V = cfg["V"]
     net = Network()
     G = net.G
-    G.add_nodes_from(range(V))
+    if cfg.get("node_order") == "desc":
+        G.add_nodes_from(reversed(range(V)))  # vertices need not have been inserted in ascending order
+    else:
+        G.add_nodes_from(range(V))
     jd = {v: [0] * len(used) for v in range(V)}
     for j, (sh, ms) in enumerate(zip(shapes, placement)):
         es = shape_edges(sh, ms)
